@@ -465,6 +465,7 @@ async def empty_containers(chk):
 
 
 SHAPES = [
+    (0, {}),        # an application that declares nothing: the built-in catalog is still answered
     # (depth, mapping): containers without content in front of, between and behind the populated ones, at every level
     (2, {"t1": {"a": "INT", "b": "TEXT"}, "t2": {"c": "DATE"}}),
     (2, {"e0": {}, "t1": {"a": "INT", "b": "TEXT"}}),
@@ -485,7 +486,7 @@ async def shape_corpus(chk):
     columns is listed in its database with exactly its columns in order, and no name that is not a declared database
     (or a built-in one) is listed as a database"""
     for depth, m in SHAPES:
-        canon = canon_of(depth, m)
+        canon = canon_of(depth, m) if depth else []
         cols = all_cols(canon)
         app = RecSession(schema=m)
         srv = mkserver([app])
@@ -496,6 +497,8 @@ async def shape_corpus(chk):
         chk.count("shape:depth%d" % depth)
         st, rows = await run(a, "SHOW DATABASES")
         dbs = [r[0] for r in rows] if rows else []
+        if st != "rs" or not all(b in dbs for b in INFO_SCHEMA):
+            chk.fail("SHOW DATABASES does not list the built-in databases", desc, dict(status=st, databases=dbs))
         declared = {c[1] for c in cols} | {d for _, ds in canon for d, _ in ds}
         bogus = [d for d in dbs if d not in declared and d not in INFO_SCHEMA]
         if bogus:
